@@ -214,18 +214,21 @@ def run(scn):
     elif k == 'number':
         f = fl[scn['file']]
         for (pos, end, line) in scn['spots']:
-            for big in ('18446744073709551616', '-18446744073709551616', '1000000000000000000000000000000', '-1000000000000000000000000000000'):
+            for big, reject in BIG_NUMBERS:
+                label = big if len(big) < 40 else '%s...(%d characters)' % (big[:12], len(big))
                 text = f.text[:pos] + big + f.text[end:]
                 res = attempt(d, text)
                 J.units += 1
-                J.fire('oversize-number-in-place')
-                J.clause1(res, text, 'for file %s with %s at offset %d' % (f.name, big, pos))
-                if res[0] == 'ok':
-                    J.V('C11.3-truncated', 'number %s beyond 64 bits substituted at line %d of %s was accepted' % (big, line, f.name), what='accepted-oversize-number',
+                J.fire('oversize-number-in-place' if reject else 'zero-padded-number-in-place')
+                J.clause1(res, text, 'for file %s with %s at offset %d' % (f.name, label, pos))
+                if not reject:
+                    pass        # a small value behind thousands of zeros: accepted or a located package error, never anything else
+                elif res[0] == 'ok':
+                    J.V('C11.3-truncated', 'number %s beyond 64 bits substituted at line %d of %s was accepted' % (label, line, f.name), what='accepted-oversize-number',
                         negative=big.startswith('-'))
                 elif res[0] == 'lexerr' and getattr(res[1], 'lineno', None) != line:
                     J.V('C11.2-line', 'oversize number at line %d of %s reported at line %r' % (line, f.name, getattr(res[1], 'lineno', None)), what='wrong-line-number', inserted='bignum')
-                J.sigs.add((f.name, 'number', big[0] == '-', res[0], type(res[1]).__name__ if res[0] != 'ok' else 'ok'))
+                J.sigs.add((f.name, 'number', big[0] == '-', len(big) > 4300, res[0], type(res[1]).__name__ if res[0] != 'ok' else 'ok'))
     elif k == 'string':
         f = fl[scn['file']]
         ref = intact(tier, scn['file'], d)
@@ -471,6 +474,12 @@ def run_compile(scn, J, tier):
 
 
 # --------------------------------------------------------------------------
+# (literal, must be rejected): beyond 64 bits, beyond the interpreter's own limit for decimal conversion (4300 digits), and small values written with
+# thousands of leading zeros
+BIG_NUMBERS = [('18446744073709551616', True), ('-18446744073709551616', True), ('1000000000000000000000000000000', True), ('-1000000000000000000000000000000', True),
+               ('9' * 4301, True), ('-' + '9' * 5000, True), ('0' * 4400 + '7', False), ('-' + '0' * 4400 + '7', False)]
+
+
 def number_spots(f):
     """(start, end, 1-based line) of integer literals on plain code lines, outside quoted strings and comments"""
     out = []
